@@ -79,7 +79,74 @@ def directed_stores():
     aas = model.AssetAdministrationShell(
         model.AssetInformation(model.AssetKind.INSTANCE, global_asset_id=" asset ",
                                specific_asset_id=[model.SpecificAssetId(" n ", " v ")]), "urn:verif:c09:aas")
-    return [("directed.shapes", model.DictObjectStore([sm])), ("directed.whitespace", model.DictObjectStore([ws, cd, aas]))]
+    return [("directed.shapes", model.DictObjectStore([sm])), ("directed.whitespace", model.DictObjectStore([ws, cd, aas])),
+            ("directed.arrays", directed_arrays())]
+
+
+def directed_arrays():
+    """every array-valued member of the serialisations with at least three entries (damage at the first / middle / last
+    entry must cost exactly that entry or a part that contains it)"""
+    from basyx.aas import model
+    from basyx.aas.model import datatypes as dt
+
+    def ref(v, n=1):
+        return model.ExternalReference(tuple(model.Key(model.KeyTypes.GLOBAL_REFERENCE, f"{v}/{i}") for i in range(n)))
+
+    def mref(n):
+        return model.ModelReference((model.Key(model.KeyTypes.SUBMODEL, f"urn:verif:c09:arr:sm{n}"),), model.Submodel)
+
+    def text(cls, t="t"):
+        return cls({"en": t + " one", "de": t + " zwei", "fr": t + " trois", "en-US": t + " four"})
+
+    def quals():
+        return [model.Qualifier(f"q{i}", dt.Int, i, value_id=ref(f"urn:q{i}"),
+                                supplemental_semantic_id=[ref(f"urn:qs{i}/{j}", 1) for j in range(3)],
+                                semantic_id=ref(f"urn:qsem{i}")) for i in range(3)]
+
+    def exts():
+        return [model.Extension(f"e{i}", dt.String, f"x{i}", refers_to=[mref(j) for j in range(3)]) for i in range(3)]
+
+    def eds():
+        return [model.EmbeddedDataSpecification(ref(f"urn:ds{i}", 1), model.DataSpecificationIEC61360(
+            text(model.PreferredNameTypeIEC61360, "p"), short_name=text(model.ShortNameTypeIEC61360, "s"),
+            definition=text(model.DefinitionTypeIEC61360, "d"), unit="u", value_format="f",
+            value_list={model.ValueReferencePair(f"v{j}", ref(f"urn:vl{i}/{j}")) for j in range(3)},
+            level_types={model.IEC61360LevelType.MIN, model.IEC61360LevelType.MAX, model.IEC61360LevelType.NOM}))
+            for i in range(3)]
+
+    def common(i, heavy=False):
+        d = dict(display_name=text(model.MultiLanguageNameType, "n"), description=text(model.MultiLanguageTextType),
+                 semantic_id=ref(f"urn:sem{i}", 3), supplemental_semantic_id=[ref(f"urn:sup{i}/{j}") for j in range(3)])
+        if heavy:
+            d.update(qualifier=quals(), extension=exts(), embedded_data_specifications=eds()[:2])
+        return d
+    sm = model.Submodel("urn:verif:c09:arr:sm0", id_short="arrays", **common(0))
+    sm.submodel_element.add(model.Capability("heavy", **common(3, heavy=True)))
+    sm.submodel_element.add(model.MultiLanguageProperty("mlp", value=text(model.MultiLanguageTextType, "v"),
+                                                        description=text(model.MultiLanguageTextType)))
+    smc = model.SubmodelElementCollection("smc", value=[model.Property(f"c{i}", dt.Int, i) for i in range(3)])
+    sm.submodel_element.add(smc)
+    sml = model.SubmodelElementList("sml", model.Property, value_type_list_element=dt.Int,
+                                    value=[model.Property(None, dt.Int, i) for i in range(3)])
+    sm.submodel_element.add(sml)
+    sm.submodel_element.add(model.Operation(
+        "op", input_variable=[model.Property(f"i{i}", dt.Int, i) for i in range(3)],
+        output_variable=[model.Property(f"o{i}", dt.Int, i) for i in range(3)],
+        in_output_variable=[model.Property(f"io{i}", dt.Int, i) for i in range(3)]))
+    sm.submodel_element.add(model.Entity("ent", model.EntityType.SELF_MANAGED_ENTITY, global_asset_id="urn:g",
+                                         specific_asset_id=[model.SpecificAssetId(f"n{i}", f"v{i}", semantic_id=ref(f"urn:sas{i}", 1),
+                                                            supplemental_semantic_id=[ref(f"urn:ss{i}/{j}", 1) for j in range(3)])
+                                                            for i in range(3)],
+                                         statement=[model.Property(f"s{i}", dt.Int, i) for i in range(3)]))
+    sm.submodel_element.add(model.AnnotatedRelationshipElement(
+        "rel", ref("urn:first"), ref("urn:second"), annotation=[model.Property(f"a{i}", dt.Int, i) for i in range(3)]))
+    cd = model.ConceptDescription("urn:verif:c09:arr:cd", id_short="cd", is_case_of={ref(f"urn:case{i}", 1) for i in range(3)},
+                                  embedded_data_specifications=eds()[:1], description=text(model.MultiLanguageTextType))
+    aas = model.AssetAdministrationShell(
+        model.AssetInformation(model.AssetKind.INSTANCE, global_asset_id="urn:asset",
+                               specific_asset_id=[model.SpecificAssetId(f"n{i}", f"v{i}") for i in range(3)]),
+        "urn:verif:c09:arr:aas", submodel={mref(i) for i in range(3)}, description=text(model.MultiLanguageTextType))
+    return model.DictObjectStore([sm, cd, aas])
 
 
 CORPUS = os.path.join(os.path.dirname(os.path.dirname(os.path.abspath(__file__))), "corpus", "C09")
@@ -174,7 +241,14 @@ def build_sources(rng, n_gen, size_lo=2, size_hi=4):
             if sorted(base) != sorted(i for (_, _, i) in items):
                 notes.append(f"{name}/{fmt}: undamaged read does not return all identifiables; skipped")
                 continue
+            ks, rs = D.run_reader(fmt, data, False, stripped=True)
+            if ks != "ok":
+                prefails.append((fmt, "strict-raises:" + type(rs).__name__,
+                                 f"strict stripped read of an UNDAMAGED valid document ({name}) raised {type(rs).__name__}: "
+                                 f"{str(rs)[:300]}", data))
+                continue
             sources.append({"name": name, "fmt": fmt, "doc": doc, "items": items, "base": base,
+                            "base_stripped": D.canon_of(rs),
                             "directed": name.startswith("directed.") or name.startswith("corpus.")})
     return sources, notes, prefails
 
@@ -219,7 +293,44 @@ def small_doc(src, victim, witnesses):
     return root, vpath, [c[2] for c in chosen]
 
 
-def enumerate_cases(rng, sources, budget, per_victim_nodes=None):
+def array_position_nodes(fmt, d, nodes):
+    """first / middle / last item of every array-valued member (JSON list, XML element with >= 2 children), and the
+    first leaf below each of these items"""
+    out = set()
+    nodeset = set(nodes)
+    for p in nodes:
+        if fmt == "json":
+            v = D._jget(d, p)
+            n = len(v) if isinstance(v, list) else 0
+        else:
+            n = len(D._xget(d, p))
+            if n < 2:
+                n = 0
+        if n == 0:
+            continue
+        for i in sorted({0, n // 2, n - 1}):
+            q = p + (i,)
+            if q not in nodeset:
+                continue
+            out.add(q)
+            # first leaf below the item
+            cur = q
+            while True:
+                if fmt == "json":
+                    v = D._jget(d, cur)
+                    kids = [cur + (k,) for k in v] if isinstance(v, dict) else \
+                        [cur + (j,) for j in range(len(v))] if isinstance(v, list) else []
+                else:
+                    kids = [cur + (j,) for j in range(len(D._xget(d, cur)))]
+                if not kids:
+                    break
+                cur = kids[0]
+            if cur != q:
+                out.add(cur)
+    return out
+
+
+def enumerate_cases(rng, sources, budget, per_victim_nodes=None, forced_cap=None):
     """-> list of case specs (src index, victim item, witnesses, relative node path, op, variant, other id).
     All node x operator pairs are enumerated; when their number exceeds `budget` a seeded sample is drawn."""
     specs, forced = [], []
@@ -238,6 +349,7 @@ def enumerate_cases(rng, sources, budget, per_victim_nodes=None):
             else:
                 nodes = [vpath] + D.xml_nodes(D._xget(d, vpath), vpath)
                 appl = D.xml_applicable
+            array_nodes = array_position_nodes(fmt, d, nodes) if src["name"].endswith("directed.arrays") else set()
             if per_victim_nodes and len(nodes) > per_victim_nodes:
                 nodes = [nodes[0]] + rng.sample(nodes[1:], per_victim_nodes - 1)
             for path in nodes:
@@ -247,6 +359,8 @@ def enumerate_cases(rng, sources, budget, per_victim_nodes=None):
                     base = rng.randrange(10 ** 6)
                     for v in range(nv):
                         specs.append((si, victim, tuple(witnesses), path, op, base + v, oid))
+                    if src["name"].endswith("directed.arrays") and path in array_nodes and op not in ("harmless",):
+                        forced.append((si, victim, tuple(witnesses), path, op, base + 1, oid))
                     if op == "harmless" and fmt == "xml" and src.get("directed"):
                         # directed: a comment / PI inside a text value with white space at its edges, in every tier
                         el = D._xget(d, path)
@@ -257,6 +371,11 @@ def enumerate_cases(rng, sources, budget, per_victim_nodes=None):
                                     forced.append((si, victim, tuple(witnesses), path, op, b13 + k + 13 * c, oid))
     total = len(specs)
     forced = list(dict.fromkeys(forced))
+    if forced_cap and len(forced) > forced_cap:
+        # keep all directed white-space cases, thin out the array-position cases evenly (by hash, reproducible)
+        keep = [sp for sp in forced if sp[4] == "harmless"]
+        rest = sorted((sp for sp in forced if sp[4] != "harmless"), key=spec_hash)
+        forced = keep + rest[:max(0, forced_cap - len(keep))]
     if budget and total > budget:
         # stratified by (format, operator): rare operators (duplicated id, wrong list, xs literal, base64, modelType)
         # are run exhaustively up to their share, the rest of the budget is drawn uniformly
@@ -295,11 +414,64 @@ def case_context(doc, fmt, path):
     return (D._lname(par) if par is not None else "-"), D._lname(el)
 
 
+NO_VICTIM_RULE = ("harmless", "wronglist")
+
+
+def delete_at(fmt, d, pre):
+    """copy of the undamaged document d without the node at path pre"""
+    d3 = copy.deepcopy(d)
+    if fmt == "json":
+        parent = D._jget(d3, pre[:-1])
+        del parent[pre[-1]]
+    else:
+        el = D._xget(d3, pre)
+        el.getparent().remove(el)
+    return d3
+
+
+def victim_rule(src, fmt, d, vpath, path, vid, got, base, style, data=None):
+    """"dropping only damaged objects or their damaged optional parts": the damaged identifiable may come back unchanged,
+    not at all, or exactly as it is read from a *valid* document in which the damaged node or a node that contains it has
+    been removed.  Returns None if one of these holds, else a text."""
+    if got is None or got == base.get(vid):
+        return None
+    if fmt == "json" and data is not None:
+        # the damage produced another *valid* object (e.g. modelType changed to another class): strict only objects to
+        # its place in the document; the reader returns what the damaged text says
+        try:
+            json.loads(data if isinstance(data, str) else data.decode(), cls=D.decoder_class("json", False, style["stripped"] if style else False))
+            return None
+        except Exception:  # noqa
+            pass
+    tried = 0
+    for L in range(len(path), len(vpath), -1):
+        try:
+            data3 = serialise(fmt, delete_at(fmt, d, path[:L]))
+        except Exception:  # noqa
+            continue
+        tried += 1
+        k, r = D.run_reader(fmt, data3, True, style=style)
+        if k == "ok" and D.canon_of(r).get(vid) == got:
+            k2, _ = D.run_reader(fmt, data3, False, style=style)
+            if k2 == "ok":
+                return None
+    return (f"the damaged identifiable {vid!r} was returned, but neither unchanged nor as it is read when the damaged node "
+            f"or one of the {tried} nodes containing it is removed from the valid document: undamaged parts were lost")
+
+
+def spec_hash(spec):
+    import zlib
+    return zlib.crc32(repr(spec).encode())
+
+
 def run_spec(sources, spec):
     """Executes one case.  Returns dict(obs=(failsafe, strict), fail=None|(kind, text), ctx=(ctor, member))"""
     si, victim, witnesses, path, op, variant, oid = spec
     src = sources[si]
     fmt = src["fmt"]
+    h = spec_hash(spec)
+    style = D.style_of(h)
+    base = src["base_stripped"] if style["stripped"] else src["base"]
     d, vpath, ids = small_doc(src, victim, list(witnesses))
     ctx = case_context(d, fmt, path)
     dmg = D.json_damage if fmt == "json" else D.xml_damage
@@ -317,8 +489,62 @@ def run_spec(sources, spec):
         damaged = set()
     if D.damages_all(op, variant):
         damaged = set(ids)
-    obs, fail = D.oracle(fmt, data, src["base"], damaged, ids, harmless=(op == "harmless"))
-    return {"obs": obs, "fail": fail, "ctx": ctx, "data": data if fail else None}
+    out = {}
+    obs, fail = D.oracle(fmt, data, base, damaged, ids, harmless=(op == "harmless"), style=style, out=out)
+    if fail is None and obs[0] == "ok" and obs[1] != "ok" and op not in NO_VICTIM_RULE and len(damaged) == 1:
+        why = victim_rule(src, fmt, d, vpath, path, victim[2], out["failsafe"].get(victim[2]), base, style, data)
+        if why:
+            fail = ("damaged-overdropped", why)
+    if fail is None and (h // 97) % 10 == 0:
+        # the same case under another logging configuration: nothing may change
+        n = 1 + (h // 7) % 6
+        out2 = {}
+        with D.logcfg(n):
+            obs2, fail2 = D.oracle(fmt, data, base, damaged, ids, harmless=(op == "harmless"), style=style, out=out2)
+        if obs2 != obs or out2 != out or (fail2 is not None):
+            fail = ("logging-dependent", f"with logging configuration {n} ({LOGCFG_NAMES[n]}) the readers behave differently "
+                                         f"than with a silent basyx logger: outcomes {obs} vs {obs2}"
+                                         + ("" if out2 == out else "; the returned objects differ")
+                    + (f"; {fail2[1][:200]}" if fail2 else ""))
+    rep = None
+    if fail:
+        txt = (lambda x: x if isinstance(x, str) else x.decode("utf-8", "replace"))
+        rep = {"kind": "damage", "fmt": fmt, "data": txt(data), "all_ids": ids,
+               "damaged_ids": sorted(x for x in damaged if x is not None),
+               "base_canon": {i: base[i] for i in ids if i in base}, "operator": op, "path": list(path),
+               "vpath": list(vpath), "victim": victim[2], "harmless": op == "harmless", "style": style,
+               "undamaged": txt(serialise(fmt, d)), "failure": fail[0],
+               "logcfg": (1 + (h // 7) % 6) if fail[0] == "logging-dependent" else None,
+               "how": "tools/c09.py replay(): c09_campaign.replay_case"}
+    return {"obs": obs, "fail": fail, "ctx": ctx, "data": data if fail else None,
+            "style": style, "h": h, "replay": rep}
+
+
+def replay_case(rp):
+    """re-runs a recorded damage case; returns (obs, failure or None)"""
+    fmt, style = rp["fmt"], rp.get("style")
+    data = rp["data"] if fmt == "json" else rp["data"].encode()
+    out = {}
+    obs, fail = D.oracle(fmt, data, rp["base_canon"], set(rp["damaged_ids"]), rp["all_ids"],
+                         harmless=rp.get("harmless", False), style=style, out=out)
+    if fail is None and rp.get("failure") == "damaged-overdropped" and out.get("failsafe") is not None:
+        d = json.loads(rp["undamaged"]) if fmt == "json" else etree.fromstring(rp["undamaged"].encode())
+        why = victim_rule(None, fmt, d, tuple(rp["vpath"]), tuple(rp["path"]), rp["victim"],
+                          out["failsafe"].get(rp["victim"]), rp["base_canon"], style, data)
+        if why:
+            fail = ("damaged-overdropped", why)
+    if fail is None and rp.get("logcfg"):
+        out2 = {}
+        with D.logcfg(rp["logcfg"]):
+            obs2, fail2 = D.oracle(fmt, data, rp["base_canon"], set(rp["damaged_ids"]), rp["all_ids"],
+                                   harmless=rp.get("harmless", False), style=style, out=out2)
+        if obs2 != obs or out2 != out or fail2 is not None:
+            fail = ("logging-dependent", f"outcomes {obs} vs {obs2} under logging configuration {rp['logcfg']}")
+    return obs, fail
+
+
+LOGCFG_NAMES = {1: "basyx logger level NOTSET", 2: "level DEBUG with a stream handler attached", 3: "level ERROR",
+                4: "logging.disable(CRITICAL)", 5: "no handlers, lastResort None", 6: "level CRITICAL"}
 
 
 _G = {}
